@@ -1740,11 +1740,12 @@ impl FunctionCompiler<'_> {
                     .compile_expr(scrutinee)
                     .expect("enums are never zero sized");
 
+                // arms that aren't listed end up here
+                let default_block = self.builder.create_block();
+                self.func_writer[default_block] = "switch_default".into();
+
                 if let Some(enum_layout) = sum_ty.enum_layout() {
                     assert!(sum_ty.is_tagged_union());
-
-                    let default_block = self.builder.create_block();
-                    self.func_writer[default_block] = "switch_default".into();
 
                     let discrim_val = self.builder.ins().load(
                         types::I8,
@@ -1764,60 +1765,57 @@ impl FunctionCompiler<'_> {
                     }
 
                     switch.emit(&mut self.builder, discrim_val, default_block);
-
-                    self.builder.switch_to_block(default_block);
-                    self.builder.seal_block(default_block);
-
-                    if let Some(default) = default {
-                        if let Some(switch_arg) = default.switch_arg {
-                            self.switch_locals.insert(switch_arg, scrutinee_val);
-                        }
-
-                        // todo: should no_load be used here?
-                        let default_val =
-                            self.compile_and_cast_with_args(default.body, no_load, return_ty);
-
-                        if let Some(default_val) = default_val {
-                            self.builder
-                                .ins()
-                                .jump(exit_block, &[BlockArg::Value(default_val)]);
-                        } else {
-                            self.builder.ins().jump(exit_block, &[]);
-                        }
-                    } else {
-                        self.compile_unreachable(Some("every branch of `switch` was missed"));
-                    }
                 } else {
                     // todo: include more tests for this
                     assert!(sum_ty.is_optional() && !sum_ty.is_tagged_union());
                     // the scrutinee should be a pointer
                     assert_eq!(self.builder.func.dfg.value_type(scrutinee_val), self.ptr_ty);
-                    // todo: add support for default blocks here
-                    assert!(default.is_none());
 
                     let is_some = self
                         .builder
                         .ins()
                         .icmp_imm(IntCC::NotEqual, scrutinee_val, 0);
 
-                    assert_eq!(arm_blocks.len(), 2);
-                    let (nil_idx, nil_block) = arm_blocks
-                        .iter()
-                        .enumerate()
-                        .find(|(_, (ty, _, _))| **ty == Ty::Nil)
-                        .expect("this is an optional");
-                    assert!(nil_idx == 0 || nil_idx == 1);
-                    let some_idx = (nil_idx == 0) as usize;
-                    assert!(some_idx == 0 || some_idx == 1);
-                    assert_ne!(some_idx, nil_idx);
-                    let some_block = arm_blocks[some_idx];
-
-                    self.func_writer[some_block.1] = "switch_arm_discrim1".into();
-                    self.func_writer[nil_block.1] = "switch_arm_discrim0".into();
+                    // an optional pointer has no tag, nil is the null pointer.
+                    // a side without an arm of its own goes to the default block
+                    let mut nil_block = default_block;
+                    let mut some_block = default_block;
+                    for (variant_ty, arm_block, _) in &arm_blocks {
+                        if **variant_ty == Ty::Nil {
+                            nil_block = *arm_block;
+                            self.func_writer[*arm_block] = "switch_arm_discrim0".into();
+                        } else {
+                            some_block = *arm_block;
+                            self.func_writer[*arm_block] = "switch_arm_discrim1".into();
+                        }
+                    }
 
                     self.builder
                         .ins()
-                        .brif(is_some, some_block.1, &[], nil_block.1, &[]);
+                        .brif(is_some, some_block, &[], nil_block, &[]);
+                }
+
+                self.builder.switch_to_block(default_block);
+                self.builder.seal_block(default_block);
+
+                if let Some(default) = default {
+                    if let Some(switch_arg) = default.switch_arg {
+                        self.switch_locals.insert(switch_arg, scrutinee_val);
+                    }
+
+                    // todo: should no_load be used here?
+                    let default_val =
+                        self.compile_and_cast_with_args(default.body, no_load, return_ty);
+
+                    if let Some(default_val) = default_val {
+                        self.builder
+                            .ins()
+                            .jump(exit_block, &[BlockArg::Value(default_val)]);
+                    } else {
+                        self.builder.ins().jump(exit_block, &[]);
+                    }
+                } else {
+                    self.compile_unreachable(Some("every branch of `switch` was missed"));
                 }
 
                 for (variant_ty, arm_block, arm) in arm_blocks {
